@@ -864,6 +864,8 @@ class FixedStepper:
 
     def step(self, loss):
         self.steps += 1
+        if self.steps > self.n + 200:
+            raise RuntimeError("runaway ICP loop: the user stepper's continual() is not consulted")
         self.seen.append(loss.detach().clone() if torch.is_tensor(loss) else torch.tensor(loss))
 
 
@@ -2717,6 +2719,8 @@ def check_round4(ctx: Ctx, seed: int) -> bool:
 
         def step(self, loss):
             self.mine += 1
+            if self.mine > self.k_ + 100:      # the loop does not consult this object's own continual(): never hang the check
+                raise RuntimeError("runaway ICP loop: the user stepper's continual() is not consulted")
 
         def reset(self):
             super().reset()
